@@ -459,20 +459,22 @@ inline std::string cell_text(const char* fam, const std::string& cfg, const Cell
          " merge=" + (c.merge == 0 ? "none" : (c.merge == 1 ? "4-way" : "4-way-mixed-k")) + " trials=" + std::to_string(c.trials);
 }
 
-// mean-rank z-test shared by all families: mean estimated rank over trials vs true rank
+// mean-rank z-test shared by all families: mean estimated rank over the trials vs the true rank.
+// The standard error is the larger of the sample value and sigma_floor/sqrt(T): for structured
+// (e.g. sorted) streams the estimate at a point can be a rare-event variable (true rank + J with
+// probability ~1/T, else true rank - J/T...), for which the sample deviation of a few hundred trials
+// badly underestimates sigma; the floor is a fraction of the error scale the sketch itself publishes.
+// sigma_floor == 0 (the sketch claims the rank is exact) demands equality.
 inline void mean_rank_test(const std::string& kp, const std::string& ctx, const Truth& t, const std::vector<size_t>& qidx,
-                           const std::vector<Welford>& acc, double zmax) {
-  double worst = 0;
+                           const std::vector<Welford>& acc, const std::vector<double>& sigma_floor, double zmax) {
   for (size_t i = 0; i < qidx.size(); ++i) {
     const double tr = t.rank(qidx[i], true);
-    const double se = std::sqrt(acc[i].var() / acc[i].n);
+    const double se = std::sqrt(std::max(acc[i].var(), sigma_floor[i] * sigma_floor[i]) / acc[i].n);
     const double dev = std::fabs(acc[i].mean - tr);
-    const double z = se > 0 ? dev / se : (dev <= 1e-12 ? 0 : 1e9);
-    worst = std::max(worst, dev <= 1e-12 ? 0.0 : z);
     VF_CHECK(dev <= zmax * se + 1e-12, kp + "mean-estimated-rank-deviates-from-true-rank",
-             ctx + " v=" + str(t.dv[qidx[i]]) + " true_rank=" + str(tr) + " mean_est=" + str(acc[i].mean) + " se=" + str(se) + " z=" + str(z) + " zmax=" + str(zmax));
+             ctx + " v=" + str(t.dv[qidx[i]]) + " true_rank=" + str(tr) + " mean_est=" + str(acc[i].mean) + " sample_sd=" + str(std::sqrt(acc[i].var())) +
+             " sigma_floor=" + str(sigma_floor[i]) + " se_used=" + str(se) + " z=" + str(se > 0 ? dev / se : 0.0) + " zmax=" + str(zmax));
   }
-  (void)worst;
 }
 
 // KLL and classic: published normalized rank error (single- and double-sided)
@@ -538,7 +540,7 @@ void sampled_cell_eps(const Cell& c, Rng& r) {
     " threshold=" + str(thr) + " worst_err=" + str(worst1) + " worst_pmf_err=" + str(worst2);
   VF_CHECK(f1 >= thr, kp + "rank-error-exceeds-published-single-sided-too-often", res);
   VF_CHECK(f2 >= thr, kp + "pmf-error-exceeds-published-double-sided-too-often", res);
-  mean_rank_test(kp, ctx, t, zq, zacc, 6.5);
+  mean_rank_test(kp, ctx, t, zq, zacc, std::vector<double>(zq.size(), eps1 / 4), 6.5);
   count(fam + "_smp_cells");
   if (c.merge) count(fam + "_smp_cells_merged");
   if (c.merge == 2) count(fam + "_smp_cells_mixed_k");
